@@ -3,6 +3,7 @@ package c19
 import (
 	"encoding/json"
 	"fmt"
+	"github.com/GuanceCloud/platypus/pkg/token"
 	"os"
 	"path/filepath"
 	"strings"
@@ -630,11 +631,18 @@ func TestCallSequences(t *testing.T) {
 		if withVars {
 			b.WriteString("a = 901\nb = 902\nc = 903\nd = 904\n")
 		}
+		// how each call statement is placed: at top level, or in a loop body after a conditional continue / break
+		placeOpen := []string{"", "for it in [1] {\n  if it == 2 { continue }\n  ", "for it = 0; it < 1; it = it + 1 {\n  if it == 5 { break } elif it == 6 { continue } else { q = 1 }\n  ", "if true {\n  "}
+		placeClose := []string{"", "\n}", "\n}", "\n}"}
+		places := make([]int, nst)
 		for i := 0; i < nst; i++ {
 			c := genCall(2)
 			calls = append(calls, c)
+			places[i] = rapid.IntRange(0, len(placeOpen)-1).Draw(t, "place")
+			b.WriteString(placeOpen[places[i]])
 			fmt.Fprintf(&b, "x%d = ", i)
 			printCall(&b, c)
+			b.WriteString(placeClose[places[i]])
 			b.WriteString("\n")
 		}
 		if withVars {
@@ -728,8 +736,10 @@ func TestCallSequences(t *testing.T) {
 			victim.Args = append(victim.Args, narg{Name: "zz_unknown", Lit: 1})
 			var bb strings.Builder
 			for i, c := range calls {
+				bb.WriteString(placeOpen[places[i]])
 				fmt.Fprintf(&bb, "x%d = ", i)
 				printCall(&bb, c)
+				bb.WriteString(placeClose[places[i]])
 				bb.WriteString("\n")
 			}
 			bad := bb.String()
@@ -740,8 +750,10 @@ func TestCallSequences(t *testing.T) {
 				rb.WriteString("a = 901\nb = 902\nc = 903\nd = 904\n")
 			}
 			for i, c := range calls {
+				rb.WriteString(placeOpen[places[i]])
 				fmt.Fprintf(&rb, "x%d = ", i)
 				printCall(&rb, c)
+				rb.WriteString(placeClose[places[i]])
 				rb.WriteString("\n")
 			}
 			if _, lerr, crash := impl.LoadV2("c19.p", bad, fns); lerr == nil || crash != nil {
@@ -755,6 +767,24 @@ func TestCallSequences(t *testing.T) {
 		}
 		if lerr != nil {
 			rk.Fail(t, "sequences", rp, "a script of bindable calls was rejected at load: %v\nfunctions: %s\nscript:\n%s", lerr, rp.Sig, src)
+		}
+		// a loaded script may be checked again (the exported Check): it is still accepted and still binds the same way
+		if rapid.Bool().Draw(t, "check-again") {
+			for k := 0; k < 2; k++ {
+				var cerr *errchain.PlError
+				func() {
+					defer func() {
+						if r := recover(); r != nil {
+							cerr = errchain.NewErr("c19.p", token.LnColPos{}, fmt.Sprint("panic: ", r))
+						}
+					}()
+					cerr = sc.Check()
+				}()
+				if cerr != nil {
+					rk.Fail(t, "sequences", rp, "checking the accepted script once more fails: %v\nfunctions: %s\nscript:\n%s", cerr, rp.Sig, src)
+				}
+			}
+			evid.Label("sequence/checked-again-before-run")
 		}
 		rerr, crash := impl.RunV2(sc, nil)
 		if crash != nil || rerr != nil {
